@@ -813,5 +813,146 @@ theorem extra_frame_not_at_final_time :
     R.exit = .final ∧ R.tFinal = 3 ∧ R.trackers.map (fun tr => tr.times) = [[0, 1, 2]] := by
   decide +kernel
 
+
+/-! ### steppers that reach their target exactly (ScipySolver, adaptive steppers) -/
+
+/-- `x` serves the `k`-th scheduled time exactly - or it is the call of the final handle at
+`t_end` for a scheduled time in the sliver `(t_end, t_end + eps*dt)` -/
+def ExactOr (c : Cfg K S σ) (D τ0 : K) (k : Nat) (x : K) : Prop :=
+  x = τ0 + k * D ∨ (x = c.tEnd ∧ c.tEnd < τ0 + k * D ∧ τ0 + k * D < c.tEnd + c.eps * c.dt)
+
+/-- loop-head invariant of a run with an exact stepper and a *single* tracker with constant
+schedule: `m` scheduled times served, each exactly; the loop time is the pending time itself,
+or `t_end` before it -/
+structure ExInv (c : Cfg K S σ) (D τ0 : K) (C : σ → K → Prop) (st : LState K S σ) (m : Nat) : Prop where
+  tr : ∃ tr, st.trs = [tr] ∧ C tr.sched (τ0 + m * D) ∧ tr.due = some (τ0 + m * D)
+  pos : st.t = τ0 + m * D ∨ (st.t = c.tEnd ∧ c.tEnd < τ0 + m * D)
+  calls : List.Forall₂ (fun (k : Nat) (x : K) => x = τ0 + k * D) (List.range m) (callsOf 0 st.trace)
+
+theorem exactOr_of_exact (c : Cfg K S σ) (D τ0 : K) (m : Nat) (l : List K)
+    (h : List.Forall₂ (fun (k : Nat) (x : K) => x = τ0 + k * D) (List.range m) l) :
+    List.Forall₂ (ExactOr c D τ0) (List.range m) l :=
+  h.imp (fun _ _ e => Or.inl e)
+
+/-- one `handle` (tolerance `atol > 0`) at a state satisfying `ExInv` whose time is the pending
+time: the tracker is served, exactly at its scheduled time, and advances by `D` -/
+theorem exInv_handle_on_time (c : Cfg K S σ) (D τ0 : K) (hD : 0 < D) (C : σ → K → Prop)
+    (hC : ConstLike c.nxt D C) (st : LState K S σ) (m : Nat) (h : ExInv c D τ0 C st m)
+    (ht : st.t = τ0 + m * D) (atol : K) (ha : 0 < atol) :
+    (∃ tr, (handleAll c.nxt atol st.t st.u 0 st.trs).1 = [tr] ∧ C tr.sched (τ0 + ((m + 1 : Nat) : K) * D) ∧
+      tr.due = some (τ0 + ((m + 1 : Nat) : K) * D)) ∧
+    List.Forall₂ (fun (k : Nat) (x : K) => x = τ0 + k * D) (List.range (m + 1))
+      (callsOf 0 (st.trace ++ (handleAll c.nxt atol st.t st.u 0 st.trs).2.1)) := by
+  obtain ⟨tr, htrs, hs, hdue⟩ := h.tr
+  have hj : st.trs[0]? = some tr := by rw [htrs]; rfl
+  have hd : isDue tr.due atol st.t = true := by
+    rw [hdue, ht]; simp [isDue]; linarith
+  obtain ⟨n1, n2⟩ := hC tr.sched (τ0 + m * D) st.t hs
+  have hnc : Interrupts.constNext (τ0 + m * D) D st.t = τ0 + ((m + 1 : Nat) : K) * D := by
+    rw [constNext_no_catchup' _ _ _ (by rw [ht]; linarith)]; push_cast; ring
+  refine ⟨⟨served c.nxt st.t st.u tr, ?_, ?_, ?_⟩, ?_⟩
+  · rw [handleAll_trackers, htrs]; simp [hd]
+  · show C (c.nxt tr.sched st.t).1 _
+    rw [← hnc]; exact n2
+  · show (c.nxt tr.sched st.t).2 = _
+    rw [n1, hnc]
+  · rw [callsOf_append, handleAll_callsOf c.nxt atol st.t st.u st.trs 0 tr hj, if_pos hd, List.range_succ]
+    exact List.rel_append h.calls (List.Forall₂.cons ht List.Forall₂.nil)
+
+/-- **adaptive_served_exactly** (exact stepper, single tracker): with a stepper that reaches its
+target exactly (ScipySolver, adaptive steppers), a tracker with constant interval `D > 0` starting
+at `t_start`, alone in the collection, is called exactly at its scheduled times
+`t_start + k*D` - on every path; the only exception is the call of the final handle at `t_end`
+for a scheduled time in the sliver `(t_end, t_end + eps*dt)`.  (With a second tracker the
+statement is false: `adaptive_two_trackers_served_early`.) -/
+theorem adaptive_served_exactly (c : Cfg K S σ) (flow : S → K → K → S) (hdt : 0 < c.dt)
+    (he0 : 0 < c.eps) (D τ0 : K) (hD : 0 < D) (C : σ → K → Prop) (hC : ConstLike c.nxt D C) :
+    ∀ (fuel : Nat) (st : LState K S σ) (m : Nat), ExInv c D τ0 C st m →
+      ∃ m', List.Forall₂ (ExactOr c D τ0) (List.range m')
+        (callsOf 0 (finalHandle c (loopExact c flow fuel st)).1.trace) := by
+  have hea : 0 < c.eps * c.dt := mul_pos he0 hdt
+  have hh : (half : K) * c.dt = c.dt / 2 := half_mul _
+  intro fuel
+  induction fuel with
+  | zero =>
+    intro st m h
+    exact ⟨m, exactOr_of_exact c D τ0 m _ h.calls⟩
+  | succ n ih =>
+    intro st m h
+    unfold loopExact iterOnceExact
+    by_cases hc : st.t < c.tEnd - c.eps * c.dt
+    · rw [if_pos hc]
+      have ht : st.t = τ0 + m * D := by
+        rcases h.pos with h1 | ⟨h1, _⟩
+        · exact h1
+        · rw [h1] at hc; linarith
+      obtain ⟨⟨tr', htrs', hs', hdue'⟩, hcalls'⟩ :=
+        exInv_handle_on_time c D τ0 hD C hC st m h ht (half * c.dt) (by rw [hh]; linarith)
+      cases herr : (handleAll c.nxt (half * c.dt) st.t st.u 0 st.trs).2.2 with
+      | some r =>
+        simp only [herr]
+        exact ⟨m + 1, exactOr_of_exact c D τ0 _ _ hcalls'⟩
+      | none =>
+        simp only [herr]
+        apply ih _ (m + 1)
+        refine ⟨⟨tr', htrs', hs', hdue'⟩, ?_, hcalls'⟩
+        show clip (nextAction (handleAll c.nxt (half * c.dt) st.t st.u 0 st.trs).1) c.tEnd = _ ∨ _
+        rw [htrs']
+        simp only [nextAction, hdue', optMin, clip]
+        split_ifs with hlt
+        · right; exact ⟨rfl, hlt⟩
+        · left; rfl
+    · rw [if_neg hc]
+      simp only [finalHandle]
+      rcases h.pos with ht | ⟨ht, hlt⟩
+      · obtain ⟨_, hcalls'⟩ := exInv_handle_on_time c D τ0 hD C hC st m h ht (c.eps * c.dt) hea
+        exact ⟨m + 1, exactOr_of_exact c D τ0 _ _ hcalls'⟩
+      · obtain ⟨tr, htrs, hs, hdue⟩ := h.tr
+        have hj : st.trs[0]? = some tr := by rw [htrs]; rfl
+        by_cases hd : isDue tr.due (c.eps * c.dt) st.t = true
+        · have hd' : τ0 + m * D - c.eps * c.dt < st.t := by
+            rw [hdue] at hd; simpa [isDue] using hd
+          refine ⟨m + 1, ?_⟩
+          rw [callsOf_append, handleAll_callsOf c.nxt _ st.t st.u st.trs 0 tr hj, if_pos hd, List.range_succ]
+          refine List.rel_append (exactOr_of_exact c D τ0 m _ h.calls) (List.Forall₂.cons ?_ List.Forall₂.nil)
+          right
+          exact ⟨ht, hlt, by rw [ht] at hd'; linarith⟩
+        · refine ⟨m, ?_⟩
+          rw [callsOf_append, handleAll_callsOf c.nxt _ st.t st.u st.trs 0 tr hj, if_neg hd, List.append_nil]
+          exact exactOr_of_exact c D τ0 m _ h.calls
+
+/-- the statement for a whole run with the concrete `ConstantInterrupts(D)` -/
+theorem adaptive_served_exactly_run (dt tStart tEnd eps : K) (flow : S → K → K → S) (u0 : S)
+    (hdt : 0 < dt) (he0 : 0 < eps) (D : K) (hD : 0 < D) (sp : TrackerSpec K S)
+    (hsched : sp.sched = .const D none) (fuel : Nat) :
+    ∃ m, List.Forall₂
+      (ExactOr ({ dt := dt, tStart := tStart, tEnd := tEnd, eps := eps, step := fun u _ => u,
+                  nxt := Sched.next } : Cfg K S (Sched K)) D tStart) (List.range m)
+      (callsOf 0 (runExactSpec dt tStart tEnd eps flow u0 [sp] fuel).trace) := by
+  set c : Cfg K S (Sched K) :=
+    { dt := dt, tStart := tStart, tEnd := tEnd, eps := eps, step := fun u _ => u, nxt := Sched.next }
+  have hs0 : (sp.init tStart).sched = Sched.const D tStart ∧ (sp.init tStart).due = some tStart := by
+    unfold TrackerSpec.init
+    rw [hsched]
+    exact ⟨rfl, rfl⟩
+  exact adaptive_served_exactly c flow hdt he0 D tStart hD _ (sched_constLike D) fuel
+    { t := tStart, u := u0, steps := 0, trs := [sp.init tStart], trace := [], iters := 0 } 0
+    ⟨⟨sp.init tStart, rfl, by simpa using hs0.1, by simpa using hs0.2⟩, Or.inl (by simp),
+      by simp [callsOf]⟩
+
+/-- **adaptive_two_trackers_served_early**: with a second tracker "exactly at it" fails.  Exact
+stepper, dt = 1/10 (tolerance dt/2 = 1/20), range [0, 3]; tracker 0 every 1, tracker 1 every
+97/100: tracker 0 is called at 0, 97/100, 2, 3 instead of 0, 1, 2, 3: its scheduled time 1 is
+served 3/100 early, because it is handled together with tracker 1 as soon as `t > t_next - dt/2`
+(the real `ScipySolver(dt=0.1)` run records the same times). -/
+theorem adaptive_two_trackers_served_early :
+    let R := runExactSpec (1 / 10 : Rat) 0 3 (1 / 1000000) (fun u t s => u + (s - t)) (0 : Rat)
+      [ { kind := .storage, sched := .const 1 none, stopAt := fun _ _ _ => none },
+        { kind := .storage, sched := .const (97 / 100) none, stopAt := fun _ _ _ => none } ] 100
+    R.exit = .final ∧ R.tFinal = 3 ∧
+      R.trackers.map (fun tr => tr.times) =
+        [[0, 97 / 100, 2, 3], [0, 97 / 100, 97 / 50, 291 / 100]] := by
+  decide +kernel
+
 end
 end PdeVerif.Controller
